@@ -187,6 +187,9 @@ pub struct Vt<I: 'static> {
     pub de_value: Option<fn(I, u8) -> Option<Result<I, String>>>,
     pub ser: Option<fn(I, Fmt) -> Option<Result<Vec<u8>, String>>>,
     pub arbitrary: Option<fn(&[u8]) -> Result<I, String>>,
+    /// declarations whose bound expression reads run-time state: the generator's range after each change of
+    /// that state - (label, every currently valid value is produced and nothing else)
+    pub arb_history: Option<fn() -> Vec<(String, bool)>>,
 
     /// formatted under the fixed spec list of `glue::fmt_all` (element 0 is plain `{}`)
     pub display: Option<fn(I) -> Option<Vec<String>>>,
@@ -257,6 +260,7 @@ impl<I: 'static> Vt<I> {
             ser_ref: None,
             ser: None,
             arbitrary: None,
+            arb_history: None,
             display: None,
             as_ref: None,
             deref: None,
@@ -288,7 +292,7 @@ impl<I: 'static> Vt<I> {
 }
 
 /// A user-defined inner type for the "anything else" family.
-#[derive(Clone, Copy, Debug, PartialEq, Eq, PartialOrd, Ord, Hash, Default)]
+#[derive(Clone, Copy, Debug, PartialEq, Eq, Ord, Hash, Default)]
 pub struct Point {
     pub x: i16,
     pub y: i16,
@@ -334,6 +338,19 @@ impl Point {
     pub fn from_str(s: &str) -> Result<Point, PointParseError> {
         let (a, b) = s.split_once(',').ok_or_else(|| PointParseError("no ','".into()))?;
         Ok(Point { x: a.parse::<i16>().map_err(|e| PointParseError(format!("x: {e:?}")))?, y: b.parse::<i16>().map_err(|e| PointParseError(format!("y: {e:?}")))? })
+    }
+}
+
+/// `PartialOrd` that is *not* `Some(cmp)`: points with `x == i16::MIN` are unordered, as NaN is among floats
+/// (a type with IEEE `partial_cmp` and a total `Ord` behaves like this). A newtype's `PartialOrd` has to give
+/// the inner type's `PartialOrd` answers, its `Ord` the inner type's `Ord` answers.
+impl PartialOrd for Point {
+    fn partial_cmp(&self, o: &Self) -> Option<Ordering> {
+        if self.x == i16::MIN || o.x == i16::MIN {
+            None
+        } else {
+            Some(Ord::cmp(self, o))
+        }
     }
 }
 
@@ -409,6 +426,16 @@ pub trait InnerTy:
     fn parse_calls_reset_() {}
     fn inner_eq(&self, o: &Self) -> bool;
     fn inner_partial_cmp(&self, o: &Self) -> Option<Option<Ordering>>;
+    /// the inner type's `Ord` (where it has one that can differ from `partial_cmp`)
+    fn inner_cmp(&self, o: &Self) -> Option<Ordering> {
+        self.inner_partial_cmp(o).flatten()
+    }
+    /// the inner type's own `Ord::max` / `Ord::min` (std implements them through `<`, so for a type whose
+    /// `PartialOrd` disagrees with its `Ord` they are not what `cmp` alone would suggest)
+    fn inner_max_min(&self, o: &Self) -> Option<(Self, Self)> {
+        let pc = self.inner_cmp(o)?;
+        Some(if pc == Ordering::Greater { (self.clone(), o.clone()) } else { (o.clone(), self.clone()) })
+    }
 }
 
 /// A hasher that distinguishes *which* `Hasher` method delivered each piece of data (`write_u32(x)` differs
@@ -690,6 +717,12 @@ impl InnerTy for Point {
     }
     fn inner_partial_cmp(&self, o: &Self) -> Option<Option<Ordering>> {
         Some(self.partial_cmp(o))
+    }
+    fn inner_cmp(&self, o: &Self) -> Option<Ordering> {
+        Some(Ord::cmp(self, o))
+    }
+    fn inner_max_min(&self, o: &Self) -> Option<(Self, Self)> {
+        Some((Ord::max(*self, *o), Ord::min(*self, *o)))
     }
 }
 
